@@ -15,6 +15,7 @@ use crate::{
             TypeDefinition, Visibility,
         },
     },
+    util,
 };
 
 pub struct SemanticState {
@@ -125,6 +126,20 @@ impl SemanticState {
                 })
             })
             .collect::<anyhow::Result<Vec<_>>>()?;
+
+        // Every extern value gets an accessor named after it: two of one name would define it twice.
+        for (index, ev) in extern_values.iter().enumerate() {
+            if extern_values[..index]
+                .iter()
+                .any(|other| util::plain_ident(&other.name) == util::plain_ident(&ev.name))
+            {
+                anyhow::bail!(
+                    "extern value `{}` is defined more than once in module `{}`",
+                    ev.name,
+                    path
+                );
+            }
+        }
 
         self.modules.insert(
             path.clone(),
